@@ -13,6 +13,9 @@ def check(run, only=None):
         params = {"max_len": 5 if run.tier == "quick" else 7}
         items = [("C13", (i, False), params) for i in range(len(sugarmon.SHAPES))] + \
                 [("C13", (i, True), params) for i in range(len(sugarmon.GREEDY))]
+        # the same shapes with the sugared rules in an imported grammar file (every 3rd shape)
+        items += [("C13", (i, False), dict(params, imported=True, max_len=min(params["max_len"], 4)))
+                  for i in range(0, len(sugarmon.SHAPES), 3)]
         results = fw.pmap(sugarmon.sugar_worker, items, chunksize=1)
         out = fw.merge_worker_results(results, RULE.format(n=len(sugarmon.SHAPES), g=len(sugarmon.GREEDY),
                                                             m=params["max_len"]))
